@@ -348,7 +348,18 @@ ADDED8 = {
   'C19': "Eighth batch: a failed port-mod is not remembered as sent; the bidirectional test may be recorded in a local first.",
   'C20': "Eighth batch: the would-block path of send_fast queues the data (by evaluation through the handler); _sliceup evaluated on sample lengths incl. exact multiples of the piece size.",
 }
-for _d in (ADDED, ADDED56, ADDED7, ADDED8):
+# ninth batch (DESIGN 9.23/9.24): two cooperating sites / histories / unusual inputs; larger twins (idiom, additions, boundary, representation)
+ADDED9 = {
+  'C01': "Ninth batch: R-DIM - in every decoder positions in the buffer and sizes are different dimensions (a position compared with a size, size - position, a position passed as a size are right only at position 0); a message decoder accounts for the declared length (asserts it or returns start + length).",
+  'C02': "Ninth batch: shares C01's decoder rules (R-DIM, declared length); the whole-message rule falls back from dominance to enumeration of the feasible paths.",
+  'C04': "Ninth batch: selection by predicate examines every entry (the table is ordered by effective priority, not by the priority field).",
+  'C05': "Ninth batch: once an event type has prioritised handlers that is not forgotten (a lazily cleared flag must be set again by every subscription).",
+  'C09': "Ninth batch: a handler object shared by all connections keeps no per-handshake state; the presence of a datapath id is never decided by its truth value.",
+  'C10': "Ninth batch: shares C01's decoder rules (R-DIM, declared length).",
+  'C11': "Ninth batch: the address table only learns (nothing removes a learned address).",
+  'C15': "Ninth batch: assertions that restate a dominating guard or an unsigned field's range are not raising sites.",
+}
+for _d in (ADDED, ADDED56, ADDED7, ADDED8, ADDED9):
   for _k, _v in _d.items():
     if _k in P: P[_k]['text'] = P[_k]['text'] + " " + _v
 
